@@ -697,6 +697,13 @@ def r16(ctx, rep):
     set_ops_tables(ctx, rep, "C07.R16")
 
 
+def r17(ctx, rep):
+    # an ORDER BY inherited past a DISTINCT / DISTINCT ON names a column the SELECT list does not have: databases reject the statement
+    import C03
+    rep.borrowed(C03.r6, ctx, "C07.R17", "a Sort is pushed before every DISTINCT ON (it separates a preceding take and resets the inherited order)")
+    rep.borrowed(C03.r1_r2, ctx, "C07.R18", "DISTINCT and aggregation reset the inherited order", only=r"^(reset|retain):")
+
+
 def run(ctx, rep):
-    for r in (r1, r2, r3, r4, r5, r6, r7, r8, r9, r10, r11, r12, r13, r14, r15, r16):
+    for r in (r1, r2, r3, r4, r5, r6, r7, r8, r9, r10, r11, r12, r13, r14, r15, r16, r17):
         rep.guard(r, ctx)
